@@ -8,6 +8,7 @@ REPO = os.environ.get('VERIF_REPO', '/repo')
 CACHE = os.path.join(VERIF, '.cache')
 COQ = os.path.join(VERIF, 'coq')
 NPROC = int(os.environ.get('VERIF_JOBS', '16'))
+COVERAGE = bool(os.environ.get('VERIF_COV'))
 _tag = hashlib.sha1(os.path.abspath(REPO).encode()).hexdigest()[:8]
 HARNESS_DIR = os.path.join(CACHE, 'harness-' + _tag)
 TARGET_DIR = os.path.join(CACHE, 'target-' + _tag)
@@ -192,6 +193,16 @@ def build_harness():
                     shutil.copy(cand, lock)
                     break
         bins = {}
+        if COVERAGE:
+            # development aid (tools/coverage.sh): one instrumented debug build stands for both profiles
+            env = dict(ENV, RUSTFLAGS='-C instrument-coverage', CARGO_TARGET_DIR=TARGET_DIR + '-cov')
+            rc, out = sh(['cargo', '+nightly', 'build', '--offline', '-q'], cwd=HARNESS_DIR, timeout=1800, env=env)
+            if rc != 0:
+                raise BuildFailure('harness-coverage', out)
+            b = os.path.join(TARGET_DIR + '-cov', 'debug', 'rl2tp_verif_harness')
+            os.makedirs(os.path.join(CACHE, 'cov', 'raw'), exist_ok=True)
+            os.environ['LLVM_PROFILE_FILE'] = os.path.join(CACHE, 'cov', 'raw', '%p-%m.profraw')
+            return {'debug': b, 'release': b}
         for prof, flag in (('debug', []), ('release', ['--release'])):
             rc, out = sh(['cargo', 'build', '--offline', '-q'] + flag, cwd=HARNESS_DIR, timeout=1800)
             if rc != 0:
@@ -310,7 +321,7 @@ class Runner:
 
 
 # ---------------------------------------------------------------- evidence
-SELFTEST = os.path.abspath(REPO) != '/repo'
+SELFTEST = os.path.abspath(REPO) != '/repo' or COVERAGE
 OUT_DIR = VERIF if not SELFTEST else os.path.join(CACHE, 'selftest-' + _tag)
 
 
